@@ -73,6 +73,12 @@ func (b *buffer) get(v wireType) {
 		return
 	}
 	b.i += v.width()
+	if b.i > len(b.data) {
+		// a field reported more bytes than were left, e.g. a repeated
+		// string property that kept its earlier, longer value
+		b.i = len(b.data)
+		b.err = ErrMissingData
+	}
 }
 
 func (b *buffer) atEnd() bool {
